@@ -90,6 +90,12 @@ class C04(TraceCheck):
                                         {"k": "assign", "r0": r0, "r1": r1, "c0": c0, "c1": c1, "block": b,
                                          "bk": "fsarray" if (r0 + c1 + len(b)) % 4 == 0 else "list", "form": "slice2"},
                                         {"k": "read", "r0": 0, "r1": h + 3, "c0": 0, "c1": w}]}
+        # regions far below the last row (row numbers beyond 2^15 and 2^16): the array grows to them
+        for (r0, c0) in ((40000, 1), (70000, 0)):
+            yield {"h": 2, "w": 3, "fmt": 0, "steps": [
+                {"k": "assign", "r0": r0, "r1": r0 + 2, "c0": c0, "c1": c0 + 2, "block": [srow("xy"), srow("z")], "bk": "list", "form": "slice2"},
+                {"k": "assign", "r0": r0 - 5, "r1": r0 - 4, "c0": 0, "c1": 1, "block": [srow("q")], "bk": "list", "form": "slice2"},
+                {"k": "read", "r0": r0 - 1, "r1": r0 + 3, "c0": 0, "c1": 3}]}
         # one row of 4..6 columns, every pair (thorough: sampled triples) of assignments from a small set of regions and
         # blocks - rows made of several runs with content to the right of the next region
         for w in (4, 5, 6):
